@@ -64,6 +64,11 @@ def make_cases(rng, tier):
             if is_map_write(ch):
                 continue
             combos.append(([ch] * k + rng.sample([c for c in pool if not is_map_write(c)], 1), []))
+    # blocks with ONE child, of every shape (sound and failing): nothing to run concurrently with, everything else unchanged
+    for ch in pool:
+        combos.append(([ch], []))
+    for ch in FAILING:
+        combos.append(([], [ch]))
     for chosen, failing in combos:
         for hold_kind in ("none", "func-child"):
             kids = [fresh(c) for c in chosen + failing]
